@@ -30,12 +30,14 @@ func ParseJSONFloatPrefix(data []byte) (f float64, n int, err error) {
 	// the Eisel-Lemire algorithm.
 	if !trunc {
 		if f2, ok := atof64exact(mantissa, exp, neg); ok {
+			verifPath(1)
 			return f2, n, nil
 		}
 	}
 
 	if f2, ok := eiselLemire64(mantissa, exp, neg); ok {
 		if !trunc {
+			verifPath(2)
 			return f2, n, nil
 		}
 		// Even if the mantissa was truncated, we may
@@ -43,11 +45,13 @@ func ParseJSONFloatPrefix(data []byte) (f float64, n int, err error) {
 		// converting the upper mantissa bound.
 		fUp, ok := eiselLemire64(mantissa+1, exp, neg)
 		if ok && f2 == fUp {
+			verifPath(3)
 			return f2, n, nil
 		}
 	}
 
 	// Slow fallback.
+	verifPath(4)
 	var d decimal
 	if !d.set(data[:n]) {
 		return 0, n, errSyntax
